@@ -166,6 +166,8 @@ def slack(f, e, p, S, depth=0):
                     s = prev - inc if prev is not None and prev - inc >= 0 else None
             if s is None:
                 return None
+            if not q.stable(f, S, d['point'], p):
+                return None     # the string may have been changed between the definition and this use
             best = s if best is None else min(best, s)
         return best
     return None
@@ -193,6 +195,8 @@ def _slack_var_at(f, decl, p, S, depth, exclude):
                 s = slack(f, d['rhs'], d['point'], S, depth + 1)
         if s is None:
             return None
+        if not q.stable(f, S, d['point'], p):
+            return None
         best = s if best is None else min(best, s)
     return best
 
@@ -216,6 +220,8 @@ def _sym_slack(f, v, p, S, sym, depth):
         if fc is None or _match_len(f, fc)[1] != sym:
             return False
         if not any(g is not None and i in reaching(f, decl, g) for g in guards):
+            return False
+        if not q.stable(f, S, d['point'], p):
             return False
     return True
 
